@@ -86,11 +86,35 @@ int w03q_node(int what);
 void w03q_print(int* log, int* nlog);
 /* log events: 1 text, 2 a double is streamed, 3 an int is streamed, 10+r child of role r printed, 20+r get_value() on role r,
    30+r get_double_value() on role r; roles: 0 bound type, 1 bound, 2 runs, 3 predicate/expression, 4 until condition, 9 builder-made node */
-static int first_index(const int* log, int n, int ev) { for (int i = 0; i < 24; i++) if (i < n && log[i] == ev) return i; return -1; }
-static int count_ev(const int* log, int n, int ev) { int c = 0; for (int i = 0; i < 24; i++) if (i < n && log[i] == ev) c++; return c; }
+#define NLOG 40
+static int first_index(const int* log, int n, int ev) { for (int i = 0; i < NLOG; i++) if (i < n && log[i] == ev) return i; return -1; }
+static int count_ev(const int* log, int n, int ev) { int c = 0; for (int i = 0; i < NLOG; i++) if (i < n && log[i] == ev) c++; return c; }
+static int last_index(const int* log, int n, int ev) { int r = -1; for (int i = 0; i < NLOG; i++) if (i < n && log[i] == ev) r = i; return r; }
+/* K3: the one floating-point value written is converted text known to read back exactly (4 / 8), never the stream's own
+   6-digit formatting (2) nor unverified text (5); text that looks like an integer (8) is directly followed by ".0" (6) */
+static int exact_literal(const int* log, int n)
+{
+    if (count_ev(log, n, 2) != 0 || count_ev(log, n, 5) != 0) return 0;
+    if (count_ev(log, n, 4) + count_ev(log, n, 8) != 1) return 0;
+    int i8 = first_index(log, n, 8);
+    if (i8 >= 0) return i8 + 1 < n && log[i8 + 1] == 6 && count_ev(log, n, 6) == 1;
+    return count_ev(log, n, 6) == 0;
+}
+void w03d_print_constant(double v, int* log, int* nlog);
+void h_c03_double_text(void)
+{
+    double v; int log[NLOG], n;
+    /* literals are non-negative and finite: the scanner has no sign and atof of the digit text is finite or HUGE_VAL */
+    __CPROVER_assume(v >= 0.0 && v <= 1.7976931348623157e308);
+    w03d_print_constant(v, log, &n);
+    __CPROVER_assert(exact_literal(log, n), "c03.double.a-floating-point-constant-is-written-as-text-that-reads-back-exactly-and-as-a-floating-point-literal");
+    if (first_index(log, n, 8) >= 0) __CPROVER_assert(0, "reach:integer-looking-text");
+    if (first_index(log, n, 4) >= 0) __CPROVER_assert(0, "reach:text-with-point-or-exponent");
+    REACH;
+}
 static void query(int which)
 {
-    int bt, runs, box, le, agg, ut, log[24], n; double prob;
+    int bt, runs, box, le, agg, ut, log[NLOG], n; double prob;
     __CPROVER_assume((bt == 0 || bt == 1) && runs >= -1 && runs <= 100 && (box == 0 || box == 1) && (le == 0 || le == 1) && (agg == 0 || agg == 1) && (ut == 0 || ut == 1) && prob >= 0.0 && prob <= 1.0);
     w03q_setup(bt, runs, which == 0 ? 5 : 4, ut);
     w03q_build(which, box, le, prob, agg);
@@ -110,7 +134,40 @@ static void query(int which)
     __CPROVER_assert(count_ev(log, n, 10 + 2) == (runs >= 0 ? 1 : 0) && (runs < 0 || (runs_printed > bound_printed && runs_printed < pred_printed)),
                      "c03.query.print:an-explicit-number-of-runs-is-printed-between-bound-and-predicate,-an-absent-one-is-not");
     if (which == 0 && !ut) __CPROVER_assert(first_index(log, n, 10 + 4) > pred_printed, "c03.query.print:Pr[..](p-U-q):-both-operands-are-printed-in-order");
-    if (which == 1) __CPROVER_assert(count_ev(log, n, 2) == 1 && count_ev(log, n, 30 + 9) == 1, "c03.query.print:the-probability-bound-is-printed");
+    if (which == 1) {
+        __CPROVER_assert(count_ev(log, n, 2) + count_ev(log, n, 4) + count_ev(log, n, 5) + count_ev(log, n, 8) == 1 && count_ev(log, n, 30 + 9) == 1, "c03.query.print:the-probability-bound-is-printed");
+        __CPROVER_assert(exact_literal(log, n), "c03.double.the-probability-bound-is-written-as-text-that-reads-back-exactly-and-as-a-floating-point-literal");
+    }
+}
+/* Pr[b1](path1 p1) >= Pr[b2](path2 p2): each side prints ITS OWN bound type, bound, path quantifier and predicate, left side first */
+void w03q_setup_cmp(int bt1, int bt2, int runs1, int runs2);
+void w03q_build_cmp(int box1, int box2);
+extern int verif_thrown;
+void h_c03_query_compare(void)
+{
+    int bt1, bt2, r1, r2, box1, box2, log[NLOG], n;
+    __CPROVER_assume((bt1 == 0 || bt1 == 1) && (bt2 == 0 || bt2 == 1) && r1 >= -1 && r1 <= 3 && r2 >= -1 && r2 <= 3 && (box1 == 0 || box1 == 1) && (box2 == 0 || box2 == 1));
+    w03q_setup_cmp(bt1, bt2, r1, r2);
+    w03q_build_cmp(box1, box2);
+    if (r1 != -1 || r2 != -1) {
+        __CPROVER_assert(verif_thrown == 1, "c03.query.compare:an-explicit-number-of-runs-is-rejected-(it-could-not-be-printed)");
+        __CPROVER_assert(0, "reach:runs-rejected");
+    } else {
+        __CPROVER_assert(verif_thrown == 0 && verif_errors == 0 && w03q_node(2) == 1 && w03q_node(0) == K_PROBA_CMP && w03q_node(1) == 8, "c03.query.compare:the-callback-builds-one-node-with-eight-operands");
+        w03q_print(log, &n);
+        int b1 = first_index(log, n, 20 + 0), e1 = first_index(log, n, 10 + 1), p1 = first_index(log, n, 10 + 3);
+        int b2 = first_index(log, n, 20 + 4), e2 = first_index(log, n, 10 + 5), p2 = first_index(log, n, 10 + 7);
+        int q1 = first_index(log, n, box1 ? 40 : 41), q2 = last_index(log, n, box2 ? 40 : 41);
+        __CPROVER_assert(count_ev(log, n, 20 + 0) == 1 && count_ev(log, n, 20 + 4) == 1, "c03.query.compare:each-side's-bound-type-is-read-from-that-side's-own-operand,-once");
+        __CPROVER_assert(count_ev(log, n, 10 + 1) == 1 && count_ev(log, n, 10 + 5) == 1 && count_ev(log, n, 10 + 3) == 1 && count_ev(log, n, 10 + 7) == 1, "c03.query.compare:each-bound-and-each-predicate-is-printed-once");
+        __CPROVER_assert(count_ev(log, n, 40) + count_ev(log, n, 41) == 2 && q1 >= 0 && q2 >= 0 && (q1 < q2), "c03.query.compare:each-side-prints-its-own-path-quantifier");
+        __CPROVER_assert(b1 >= 0 && b1 < e1 && e1 < q1 && q1 < p1 && p1 < b2 && b2 < e2 && e2 < q2 && q2 < p2, "c03.query.compare:left-side-then-right-side,-each-as-bound-type,-bound,-path-quantifier,-predicate");
+        __CPROVER_assert(count_ev(log, n, 20 + 1) == 0 && count_ev(log, n, 20 + 3) == 0 && count_ev(log, n, 20 + 5) == 0 && count_ev(log, n, 20 + 7) == 0 && count_ev(log, n, 10 + 0) == 0 && count_ev(log, n, 10 + 4) == 0 && count_ev(log, n, 10 + 2) == 0 && count_ev(log, n, 10 + 6) == 0,
+                         "c03.query.compare:no-expression-operand-is-read-as-a-number-and-no-constant-operand-is-printed-as-an-expression");
+        if (box1 != box2) __CPROVER_assert(0, "reach:different-path-quantifiers");
+        if (bt1 != bt2) __CPROVER_assert(0, "reach:different-bound-types");
+    }
+    REACH;
 }
 void h_c03_query_quantitative(void) { query(0); REACH; }
 void h_c03_query_qualitative(void) { query(1); REACH; }
